@@ -497,7 +497,27 @@ def iszerobyte_hook(exe, st, node, args):
     return r
 
 
-MATH_HOOKS = {'mju_isZeroByte': iszerobyte_hook, 'strncmp': strncmp_hook, 'strnlen': strnlen_hook, 'sqrt': sqrt_hook, 'sin': sin_hook, 'cos': cos_hook, 'fabs': fabs_hook, 'fmax': fmax_hook, 'fmin': fmin_hook, 'exp': exp_hook}
+def _overflow_builtin(op):
+    def hook(exe, st, node, args):
+        """__builtin_{add,mul}_overflow(a, b, &res): the operation is performed in infinite precision, the result truncated to
+        the type of *res is stored, and the return value says whether the exact result did not fit (GCC/Clang semantics)."""
+        if exe.sem.int_mode == 'bv':
+            raise FrontEndError('__builtin_*_overflow in bv mode')
+        a, b, res = args
+        exe._check_deref(res, st, node)
+        rt = res.ct
+        r = a + b if op == 'add' else a * b
+        fits = z3.And(r >= rt.lo, r <= rt.hi)
+        m = r % (1 << rt.width)
+        wrapped = z3.If(m > rt.hi, m - (1 << rt.width), m) if rt.signed else m
+        q = exe._normalize(res)
+        exe.on_store(q, None, st)
+        st.store(q, simp(z3.If(fits, r, wrapped)))
+        return z3.If(fits, z3.IntVal(0), z3.IntVal(1))
+    return hook
+
+
+MATH_HOOKS = {'__builtin_add_overflow': _overflow_builtin('add'), '__builtin_mul_overflow': _overflow_builtin('mul'), 'mju_isZeroByte': iszerobyte_hook, 'strncmp': strncmp_hook, 'strnlen': strnlen_hook, 'sqrt': sqrt_hook, 'sin': sin_hook, 'cos': cos_hook, 'fabs': fabs_hook, 'fmax': fmax_hook, 'fmin': fmin_hook, 'exp': exp_hook}
 
 HOOKS = {'memcpy': memcpy_hook, 'memmove': memcpy_hook, 'memset': memset_hook,
          '__builtin_memcpy': memcpy_hook, '__builtin_memset': memset_hook,
